@@ -95,6 +95,10 @@ def unsound(case, res, out, dom=()):
             if sig:
                 out.known.append('CV-circ-copy-inconsistency')
                 out.detail = dict(signature=sig, seq=seq, header=hdr)
+            elif any(cveval.crowded_truncation_signature(case, ref, e['backbone'], seq)
+                    for e in cveval.parse_header(hdr)):
+                out.known.append('CV-crowded-truncated-product')
+                out.detail = dict(seq=seq, header=hdr)
             else:
                 rest.append((seq, hdr))
         bad = rest
